@@ -236,6 +236,8 @@ Definition trap_gen_post (vm ac de p0 p1 v0 v1 : R) (r : trapR * R * trap_branch
   trap_gen_defined vm ac de p0 p1 v0 v1 b.
 
 Ltac fin := first [assumption | reflexivity | lra | (apply Rabs_le; lra) | (unfold Rsqr in *; lra) | nra].
+Ltac finish_post := repeat split; try fin; try discriminate; try (intros [X|X]; discriminate); auto.
+Ltac fin0 := first [assumption | reflexivity | lra | (apply Rabs_le; lra) | (unfold Rsqr in *; lra) | nra].
 
 Theorem trap_gen_wf c0 vm ac de p0 p1 v0 v1 :
   vm <> 0 -> trap_feasible ac de p0 p1 ->
@@ -259,40 +261,34 @@ Proof.
   destruct (Rleb_spec vc2 0) as [C0|C0]; [intros; lra|].
   destruct (Rltb_spec (V * V) vc2) as [C1|C1].
   - (* cruise *)
-    intros Ht.
     destruct (cruise_alg V (if s then - V else V) ac de p0 p1 w0 w1 (Hdir V) HV Hw0 Hw1 C1)
       as (A1 & A2 & A3 & A4 & A5 & A6 & A7 & A8 & A9).
-    destruct s; gen_unfold; (split; [constructor; tcbn; fin|]); repeat split; try fin; try discriminate; try (intros [X|X]; discriminate); auto.
+    destruct s; gen_unfold; intros Ht; (split; [constructor; tcbn; fin|]); finish_post.
   - destruct (Rltb_spec (w0 * w0) vc2) as [C2|C2]; destruct (Rleb_spec vc2 (w1 * w1)) as [C3|C3]; cbn [andb].
     + (* acceleration only *)
       destruct (Rltb_spec (w0 * w0 + 2 * (p1 - p0) * ac) 0) as [C4|C4]; [intros; lra|].
-      intros Ht.
       destruct (acc_alg V (if s then - R_sqrt.sqrt (w0 * w0 + 2 * (p1 - p0) * ac) else R_sqrt.sqrt (w0 * w0 + 2 * (p1 - p0) * ac))
                   ac de p0 p1 w0 w1 (Hdir _) HV Hw0 Hw1 C1 C3 C4) as (A1 & A2 & A3 & A4 & A5).
-      destruct s; gen_unfold; (split; [constructor; tcbn; fin|]); repeat split; try fin; try discriminate; try (intros [X|X]; discriminate); auto.
-    + (* peak above both boundary speeds *)
+      destruct s; gen_unfold; intros Ht; (split; [constructor; tcbn; fin|]); finish_post.
+    + (* peak above both boundary speeds: acceleration, deceleration *)
       destruct (Rleb_spec vc2 (w0 * w0)) as [C5|C5]; [lra|]. cbn [andb].
-      intros Ht.
       destruct (accdec_alg V (if s then - R_sqrt.sqrt vc2 else R_sqrt.sqrt vc2) ac de p0 p1 w0 w1 (Hdir _) HV Hw0 Hw1 C0 C1)
-        as (A1 & A2 & A3 & A4 & A5 & A6 & A7); [intros [? ?]; lra|intros [? ?]; lra|].
-      destruct s; gen_unfold; (split; [constructor; tcbn; fin|]); repeat split; try fin; try discriminate; try (intros [X|X]; discriminate); auto.
+        as (A1 & A2 & A3 & A4 & A5 & A6 & A7); [intros [? ?]; unfold vc2 in *; lra|intros [? ?]; unfold vc2 in *; lra|].
+      destruct s; gen_unfold; intros Ht; (split; [constructor; tcbn; fin|]); finish_post.
+    + destruct (Rleb_spec vc2 (w0 * w0)) as [C5|C5]; destruct (Rltb_spec (w1 * w1) vc2) as [C6|C6]; cbn [andb]; try lra.
+      * (* deceleration only *)
+        destruct (Rltb_spec (w0 * w0 + 2 * (p1 - p0) * de) 0) as [C4|C4]; [intros; try lra|]. Show.
+        destruct (dec_alg V (if s then - R_sqrt.sqrt (w0 * w0 + 2 * (p1 - p0) * de) else R_sqrt.sqrt (w0 * w0 + 2 * (p1 - p0) * de))
+                    ac de p0 p1 w0 (Hdir _) HV Hw0 C4) as (A1 & A2 & A3).
+        destruct s; gen_unfold; intros Ht; (split; [constructor; tcbn; fin|]); finish_post.
+      * (* both boundary speeds equal the peak (only possible with p = 0): acceleration, deceleration *)
+        destruct (accdec_alg V (if s then - R_sqrt.sqrt vc2 else R_sqrt.sqrt vc2) ac de p0 p1 w0 w1 (Hdir _) HV Hw0 Hw1 C0 C1)
+          as (A1 & A2 & A3 & A4 & A5 & A6 & A7); [intros [? ?]; unfold vc2 in *; lra|intros [? ?]; unfold vc2 in *; lra|].
+        destruct s; gen_unfold; intros Ht; (split; [constructor; tcbn; fin|]); finish_post.
     + destruct (Rleb_spec vc2 (w0 * w0)) as [C5|C5]; destruct (Rltb_spec (w1 * w1) vc2) as [C6|C6]; cbn [andb]; try lra.
       * (* deceleration only *)
         destruct (Rltb_spec (w0 * w0 + 2 * (p1 - p0) * de) 0) as [C4|C4]; [intros; lra|].
-        intros Ht.
         destruct (dec_alg V (if s then - R_sqrt.sqrt (w0 * w0 + 2 * (p1 - p0) * de) else R_sqrt.sqrt (w0 * w0 + 2 * (p1 - p0) * de))
                     ac de p0 p1 w0 (Hdir _) HV Hw0 C4) as (A1 & A2 & A3).
-        destruct s; gen_unfold; gen_unfold in Ht; (split; [constructor; tcbn; fin|]); repeat split; try fin; try discriminate; try (intros [X|X]; discriminate); auto.
-      * (* both boundary speeds equal the peak: acceleration, deceleration *)
-        intros Ht.
-        destruct (accdec_alg V (if s then - R_sqrt.sqrt vc2 else R_sqrt.sqrt vc2) ac de p0 p1 w0 w1 (Hdir _) HV Hw0 Hw1 C0 C1)
-          as (A1 & A2 & A3 & A4 & A5 & A6 & A7); [intros [? ?]; lra|intros [? ?]; lra|].
-        destruct s; gen_unfold; (split; [constructor; tcbn; fin|]); repeat split; try fin; try discriminate; try (intros [X|X]; discriminate); auto.
-    + (* peak above v1 but not above v0 is the deceleration case handled above; here: not above v0, above v1 is false *)
-      destruct (Rleb_spec vc2 (w0 * w0)) as [C5|C5]; destruct (Rltb_spec (w1 * w1) vc2) as [C6|C6]; cbn [andb]; try lra.
-      * destruct (Rltb_spec (w0 * w0 + 2 * (p1 - p0) * de) 0) as [C4|C4]; [intros; lra|].
-        intros Ht.
-        destruct (dec_alg V (if s then - R_sqrt.sqrt (w0 * w0 + 2 * (p1 - p0) * de) else R_sqrt.sqrt (w0 * w0 + 2 * (p1 - p0) * de))
-                    ac de p0 p1 w0 (Hdir _) HV Hw0 C4) as (A1 & A2 & A3).
-        destruct s; gen_unfold; gen_unfold in Ht; (split; [constructor; tcbn; fin|]); repeat split; try fin; try discriminate; try (intros [X|X]; discriminate); auto.
+        destruct s; gen_unfold; intros Ht; (split; [constructor; tcbn; fin|]); finish_post.
 Qed.
